@@ -379,6 +379,9 @@ func rewrite(fset *token.FileSet, f *ast.File, dst, mod string, inf *info) error
 			im.Name = ast.NewIdent(name)
 		}
 	}
+	if markSelectClauses(f) {
+		addImport(f, "vverifsched", mod+"/internal/vsched")
+	}
 	rewriteSelects(f, inf)
 	if guardGoStmts(f) {
 		addImport(f, "vverifsched", mod+"/internal/vsched")
@@ -437,6 +440,23 @@ func hasLabel(stmts []ast.Stmt) bool {
 		})
 	}
 	return found
+}
+
+// markSelectClauses prepends vverifsched.AfterSelect() to the body of every communication
+// clause: the instant a select fires becomes a (switchable) scheduling point.
+func markSelectClauses(f *ast.File) bool {
+	changed := false
+	ast.Inspect(f, func(n ast.Node) bool {
+		cc, ok := n.(*ast.CommClause)
+		if !ok || cc.Comm == nil {
+			return true
+		}
+		call := &ast.ExprStmt{X: &ast.CallExpr{Fun: &ast.SelectorExpr{X: ast.NewIdent("vverifsched"), Sel: ast.NewIdent("AfterSelect")}}}
+		cc.Body = append([]ast.Stmt{call}, cc.Body...)
+		changed = true
+		return true
+	})
+	return changed
 }
 
 // rewriteSelects turns every select with >= 2 communication clauses into a cascade.
